@@ -5,6 +5,8 @@ from __future__ import annotations
 import random
 from fractions import Fraction
 
+from pint.errors import DimensionalityError
+
 from .. import covers, regs
 from ..runner import Case
 from ..sx.q import And, Eq, Iff, Implies, Not, Or
@@ -264,6 +266,35 @@ def h_compact_unchanged(eng, unit):
         d = ureg.Quantity(x, "")
         rd = d.to_compact()
         eng.prove(And(rd._units == d._units, Eq(rd.magnitude, x)), "compact-dimensionless-unchanged")
+        # zero with an explicit target unit, and of an integer type
+        for target in ("newton", "meter", None):
+            try:
+                rz = z.to_compact(target) if target else z.to_compact()
+            except DimensionalityError:
+                continue
+            eng.prove(rz._units == z._units and Eq(rz.magnitude, 0), f"compact-zero-unchanged:unit={target}")
+        zi = ureg.Quantity(0, unit)
+        rzi = zi.to_compact()
+        eng.prove(rzi._units == zi._units and rzi.magnitude == 0 and type(rzi.magnitude) is int, "compact-int-zero-unchanged")
+
+
+def h_compact_special_floats(eng):
+    """float registry: zero, NaN and infinities are returned as they are (same unit, same value,
+    same type), whatever the unit's prefix and whether or not a target unit is given"""
+    import math
+
+    ureg = regs.float_default()
+    for unit in ("kilometer", "millisecond", "kilopascal", "centimeter / millisecond", "meter", "nanosecond", "megahertz", "kilogram * meter / second ** 2"):
+        for val in (0.0, 0, float("nan"), float("inf"), -float("inf"), -0.0):
+            q = ureg.Quantity(val, unit)
+            for target in (None, "base"):
+                if target is None:
+                    r = q.to_compact()
+                else:
+                    r = q.to_compact(next(iter(q.to_base_units().to_reduced_units().units._units)) if len(q.to_base_units()._units) == 1 else None)
+                same_val = (math.isnan(r.magnitude) and math.isnan(val)) or r.magnitude == val
+                eng.prove(r.units == q.units and same_val and type(r.magnitude) is type(val), f"compact-special-unchanged:{unit}:{val!r}:target={target}")
+            eng.prove(q.units == ureg.Unit(unit), f"compact-special-operand-untouched:{unit}:{val!r}")
 
 
 def h_preferred(eng, units, preferred):
@@ -321,6 +352,10 @@ def cases(tier, seed):
             out.append(Case("H15.a", f"root-base:{_sig(ul)}:{s}", M, "h_root_base", {"units": ul, "system": s}, validate=1))
     red = [[["inch", 1], ["meter", 1]], [["liter", 1], ["meter", -2]], [["hour", 1], ["second", -1]], [["acre", 1], ["foot", -2]], [["gram", 2], ["pound", -1]], [["meter", 1], ["second", -1]], [["gallon", 1], ["inch", -3], ["newton", 1]]]
     red += [[["degree", 1], ["radian", 1], ["meter", 1]], [["percent", 1], ["second", 1], ["count", -1]], [["ppm", 1], ["gram", 1], ["percent", -1]], [["turn", 1], ["meter", 1], ["radian", -1]], [["percent", 1], ["ppm", 1]]]
+    # pairs whose dimension vectors are proportional with a ratio other than 1 over several base
+    # dimensions (the memoised dimensionalities list the base dimensions in different orders)
+    red += [[["ohm", 1], ["siemens", 1], ["meter", 1]], [["ohm", 2], ["siemens", 1]], [["farad", -1], ["conventional_farad_90", 1], ["second", 1]], [["henry", 1], ["siemens", 1], ["hertz", 1]],
+            [["tesla", 1], ["pascal", 1]], [["volt", 1], ["ampere", 1], ["watt", -1], ["gram", 1]], [["newton", 1], ["dyne", -1], ["second", 1]]]  # fmt: skip
     red += [draw(rnd.choice([2, 3])) for _ in range(30 if big else 8)]
     for ul in red:
         out.append(Case("H15.b", f"reduced:{_sig(ul)}", M, "h_reduced", {"units": ul}, validate=1))
@@ -356,8 +391,9 @@ def cases(tier, seed):
     for ul in comp:
         for sign in (1, -1) if (big or len(ul) == 1) else (1,):
             out.append(Case("H15.c", f"compact:{_sig(ul)}:{'+' if sign > 0 else '-'}", M, "h_compact", {"units": ul, "sign": sign}, opts={"max_paths": 3000, "query_timeout_ms": 30000}, weight=20.0, validate=0))
-    for u in ("meter", "newton"):
+    for u in ("meter", "newton", "kilometer", "millisecond", "kilonewton", "centimeter"):
         out.append(Case("H15.c", f"compact-unchanged:{u}", M, "h_compact_unchanged", {"unit": u}, validate=0))
+    out.append(Case("H15.c", "compact-special-floats", M, "h_compact_special_floats", {}, kind="conc"))
     for unit, base in (("kilometer", "meter"), ("meter", "meter"), ("millisecond", "second"), ("inch", "meter"), ("hour", "second")) + ((("pound", "gram"), ("mile", "inch")) if big else ()):
         out.append(Case("H15.c", f"compact-given-unit:{unit}->{base}", M, "h_compact_given_unit", {"unit": unit, "base": base}, opts={"max_paths": 3000, "query_timeout_ms": 30000}, weight=20.0, validate=0))
     for u in ("kilometer", "millisecond", "meter", "megabyte") + (("microgram", "gigahertz", "newton") if big else ()):
